@@ -36,6 +36,9 @@ STATEFUL = [
     "cr(x, df=3)", "cc(y, df=3)", "cr(z, df=4, constraints='center')", "cc(x, df=3, constraints='center')", "cs(y, df=4)",
     "C(A, contr.sum)", "C(B, contr.helmert)", "C(A, contr.poly)", "C(G)", "C(B, contr.treatment('x'))", "C(A, contr.diff)",
     "A", "B", "center(v)", "scale(v)", "standardize(v)", "C(B, contr.sum)", "C(B, contr.poly)",
+    # stateful transforms wrapped around multi-column (integer-keyed) bases, and a quoted name whose sanitised
+    # form collides with another column
+    "center(bs(x, df=4))", "scale(cr(z, df=3))", "scale(poly(y, 2))", "center(`a b`)", "scale(`a b`):a_b",
 ]
 STATELESS = ["2.5", "0.5", "3", "log(w)", "np.exp(y)", "I(x * y)", "{x + 1}", "hashed(A, levels=3)", "x", "y", "z", "w", "np.log(w + 1)"]
 LEVELS = {"A": ["b", "a", "d", "c"], "B": ["y", "x", "z"], "G": [3, 1, 2]}
@@ -52,6 +55,8 @@ def train_frame(seed, n):
         "w": rng.uniform(0.5, 20, n),
         # exact zero mean (recorded centre == 0.0), in random order
         "v": rng.permutation(np.arange(n, dtype=float) - (n - 1) / 2.0),
+        "a b": rng.uniform(-3, 3, n),
+        "a_b": rng.uniform(1, 2, n),
     }
     cats = {}
     for c, lv in LEVELS.items():
@@ -77,7 +82,7 @@ def follow_frame(train, h):
     if k or not rows:
         k = max(k, 1)
         fresh = {}
-        for c in ["x", "y", "z", "w", "v"]:
+        for c in ["x", "y", "z", "w", "v", "a b", "a_b"]:
             lo, hi = train[c].min(), train[c].max()
             fresh[c] = rng.uniform(lo, hi, k)
         f = pd.DataFrame(fresh)
@@ -85,7 +90,8 @@ def follow_frame(train, h):
         f["B"] = pd.Categorical([list(train["B"].cat.categories)[int(i) % len(train["B"].cat.categories)] for i in rng.integers(0, 10, k)], categories=list(train["B"].cat.categories))
         f["G"] = np.array([sorted(train["G"].unique())[int(i) % train["G"].nunique()] for i in rng.integers(0, 10, k)], dtype="int64")
         parts.append(f)
-    d = pd.concat(parts, ignore_index=True)
+    keep_labels = h.get("index") == "labels" and rows and not (k or not rows)
+    d = pd.concat(parts, ignore_index=not keep_labels)
     cats = list(train["B"].cat.categories)
     if h.get("recat"):
         cats = sorted(cats)  # same set of categories, another declared order
@@ -120,8 +126,10 @@ def check_case(case) -> Outcome:
     stateful = [f for t in case["terms"] for f in t if f in STATEFUL]
     for f in sorted({f.split("(")[0] for f in stateful}):
         out.label("tf:" + f)
-    mm = model_matrix(s, train, output=output, ensure_full_rank=efr)
+    mm = model_matrix(s, train, output=output, ensure_full_rank=efr, cluster_by="numerical_factors" if case.get("cluster") else "none")
     spec = mm.model_spec
+    if case.get("cluster"):
+        out.label("cluster_by")
     names = list(spec.column_names)
     nc = len(names)
     M0 = dense(mm, nc)
@@ -200,13 +208,14 @@ def check_case(case) -> Outcome:
 
 def gen():
     fac = st.one_of(st.sampled_from(STATEFUL), st.sampled_from(STATEFUL), st.sampled_from(STATELESS))
-    term = st.lists(fac, min_size=1, max_size=2, unique=True)
+    plain_pair = st.tuples(st.sampled_from(["x", "y", "z", "w"]), st.sampled_from(["A", "B", "C(G)", "C(B, contr.sum)"])).map(list)
+    term = st.one_of(st.lists(fac, min_size=1, max_size=2, unique=True), st.lists(fac, min_size=1, max_size=2, unique=True), plain_pair, st.sampled_from(["x", "y", "z"]).map(lambda c: [c]))
     hist = st.fixed_dictionaries(
         {
             "rows": st.one_of(st.just([]), st.lists(st.integers(0, 60), min_size=1, max_size=6), st.lists(st.integers(0, 60), min_size=10, max_size=18)),
             "fresh": st.integers(0, 4),
             "seed": st.integers(0, 10**6),
-            "index": st.sampled_from([None, None, "odd"]),
+            "index": st.sampled_from([None, "labels", "labels", "odd"]),
             "recat": st.booleans(),
         }
     )
@@ -219,6 +228,7 @@ def gen():
             "history": st.lists(hist, min_size=1, max_size=4),
             "output": st.sampled_from(["pandas", "pandas", "numpy", "sparse"]),
             "efr": st.sampled_from([True, True, False]),
+            "cluster": st.sampled_from([False, False, True]),
         }
     )
 
